@@ -3,7 +3,9 @@
 Engine P.  (a) packaging: (entry point, value, packaging) - every packaging of the same real
 value must give numerically the same, floating-point, usable result;  (b) rescaling:
 (geometric function, lattice input, per-unit lambda pattern) - every lambda pattern must give
-the same geometry as the unscaled input.
+the same geometry as the unscaled input;  (c) integer-valued homogeneous coordinates in every packaging;  (d) the
+module-level coordinate functions on single matrices and composites of points laid out as rows and as columns
+(column_vectors=True), under per-point rescaling.
 """
 import itertools
 import math
@@ -695,6 +697,129 @@ def intpoint_cases():
                     for how in INT_POINT_PACKS:
                         yield {"n": n, "out": out, "i": i, "j": j, "pack": how}
 
+# ------------------------------------------------------------------------------------------
+# (d) the module-level coordinate functions (projective.affine_coords / projective_coords, hyperbolic.kleinian_coords /
+#     hyperboloid_coords) on single matrices and COMPOSITES of points, laid out as rows (default) and as columns
+#     (column_vectors=True), under per-point rescaling: the column answer is the row answer with the last two axes
+#     swapped, and the row answer is the oracle's (x_others / x_chart of the UNSCALED points)
+# ------------------------------------------------------------------------------------------
+CF_BATCHES = [[], [1], [3], [4], [2, 3]]
+CF_COUNTS = [1, 2, 3, 4, 5]
+CF_PACKS = ["ndarray64", "list"]
+CF_RADII = [0.3, 0.55, 0.8, 0.45, 0.7]
+
+
+def _cf_rows(n, count, seed, start):
+    """`count` interior points of H^n as rows (1, k): a scan of the generic-direction lattice that skips rows with a
+    coordinate below 0.05 in modulus (every point lies well inside every standard affine chart)."""
+    out, k = [], start
+    while len(out) < count:
+        r = np.concatenate([[1.0], CF_RADII[k % len(CF_RADII)] * lattice.generic_dir(n, k, seed)])
+        k += 1
+        if np.min(np.abs(r)) >= 0.05:
+            out.append(r)
+    return np.array(out)
+
+
+def coordfn_cases():
+    for n in (2, 3):
+        fns = [["affine", c] for c in range(n + 1)] + [["affine", None], ["klein", 0], ["hyperboloid", 0]]
+        fns += [["projective", c] for c in range(n + 1)]
+        for f, c in fns:
+            for b in CF_BATCHES:
+                for m in CF_COUNTS:
+                    for pack in (CF_PACKS if f != "hyperboloid" else CF_PACKS[:1]):
+                        yield {"f": f, "chart": c, "n": n, "batch": b, "m": m, "pack": pack}
+
+
+def case_coordfn(case):
+    from geometry_tools import hyperbolic as H, projective as PR
+    f, c, n, batch, m, pack, seed = case["f"], case["chart"], case["n"], tuple(case["batch"]), case["m"], case["pack"], case.get("seed", 0)
+    total = int(np.prod(batch, dtype=int)) * m
+    X = _cf_rows(n, total, seed, 7 * n + m).reshape(batch + (m, n + 1))          # unscaled rows
+    kind = "composite" if batch else "single"
+    v, calls, outcomes = [], 0, []
+
+    def call(data, cols):
+        kw = {"column_vectors": True} if cols else {}
+        if f == "affine":
+            return PR.affine_coords(data, chart_index=c, **kw)
+        if f == "klein":
+            return H.kleinian_coords(data, **kw)
+        if f == "hyperboloid":
+            return H.hyperboloid_coords(data, **kw)
+        return PR.projective_coords(data, chart_index=c, **kw)
+
+    patterns = [None] + ([0, 1, 2, 3] if f != "projective" else [])
+    for pat in patterns:
+        if pat is None:
+            lam = np.ones(batch + (m, 1))
+        else:
+            lam = np.array([LAM[(k + pat) % len(LAM)] for k in range(total)]).reshape(batch + (m, 1))
+        rows_in = X[..., 1:] if f == "projective" else lam * X
+        res = {}
+        for cols in (False, True):
+            layout = "%s-%s" % ("columns" if cols else "rows", kind)
+            arr = np.swapaxes(rows_in, -1, -2).copy() if cols else rows_in.copy()
+            data = pack_array(arr, pack)
+            snap = np.array(arr, copy=True)
+            calls += 1
+            try:
+                r = call(data, cols)
+            except Exception as e:
+                v.append({"key": "coordfn/raises/%s/%s" % (f, layout), "msg": "%s(chart %r) of %r points of H^%d, batch %r, as %s (%s): %s: %s" % (
+                    f, c, m, n, batch, layout, pack, type(e).__name__, str(e)[:200])})
+                continue
+            if isinstance(data, np.ndarray) and f != "hyperboloid" and not np.array_equal(data, snap):
+                v.append({"key": "coordfn/input-mutated/%s/%s" % (f, layout), "msg": "%s changed the caller's array" % f})
+            chart = c
+            if f == "affine" and c is None:
+                if not (isinstance(r, tuple) and len(r) == 2):
+                    v.append({"key": "coordfn/auto-chart/%s/%s" % (f, layout), "msg": "affine_coords(chart_index=None) returned %r instead of (affine, chart)" % (r,)})
+                    continue
+                r, chart = r[0], int(r[1])
+                if not 0 <= chart <= n:
+                    v.append({"key": "coordfn/auto-chart/%s/%s" % (f, layout), "msg": "chart %r" % chart})
+                    continue
+            r = np.asarray(r)
+            if cols:
+                r = np.swapaxes(r, -1, -2) if r.ndim >= 2 else r
+            # oracle, from the unscaled rows
+            if f in ("affine", "klein"):
+                exp = np.delete(X, chart, axis=-1) / X[..., chart:chart + 1]
+            elif f == "projective":
+                exp = np.insert(X[..., 1:], chart, 1.0, axis=-1)
+            else:
+                exp = None
+            where = "%s(chart %r) of %d points of H^%d, batch %r, as %s (%s), lambda pattern %r" % (f, c, m, n, batch, layout, pack, pat)
+            if exp is not None:
+                if r.shape != exp.shape:
+                    v.append({"key": "coordfn/shape/%s/%s" % (f, layout), "msg": "%s: shape %r, expected %r" % (where, r.shape, exp.shape)})
+                    continue
+                if r.dtype.kind not in "fc" and f != "projective":
+                    v.append({"key": "coordfn/non-float-dtype/%s/%s" % (f, layout), "msg": "%s: dtype %s" % (where, r.dtype)})
+                err = float(np.max(np.abs(r.astype(float) - exp)))
+                if not err <= TOL * (1.0 + float(np.max(np.abs(exp)))):
+                    v.append({"key": "coordfn/value/%s/%s/%s" % (f, layout, "unscaled" if pat is None else "rescaled"),
+                              "msg": "%s: differs from x_others / x_chart of the unscaled points by %.3g\n%r\nexpected\n%r" % (where, err, r, exp)})
+            else:
+                if r.shape != X.shape:
+                    v.append({"key": "coordfn/shape/%s/%s" % (f, layout), "msg": "%s: shape %r, expected %r" % (where, r.shape, X.shape)})
+                    continue
+                e1 = float(np.max(hyp.proj_sin_err(r.astype(float), X)))
+                e2 = float(np.max(np.abs(np.abs(hyp.mink(r, r)) - 1.0)))
+                if not (e1 <= 1e-8 and e2 <= 1e-8):
+                    v.append({"key": "coordfn/value/%s/%s/%s" % (f, layout, "unscaled" if pat is None else "rescaled"),
+                              "msg": "%s: not the points on the unit hyperboloid (projective error %.3g, |<x,x>| - 1 = %.3g)\n%r" % (where, e1, e2, r)})
+            res[cols] = (r, chart)
+        if len(res) == 2 and not v:
+            (a, ca), (b_, cb) = res[False], res[True]
+            if ca != cb or a.shape != b_.shape or not float(np.max(np.abs(a.astype(float) - b_.astype(float)))) <= TOL * (1.0 + float(np.max(np.abs(a)))):
+                v.append({"key": "coordfn/layout/%s/%s" % (f, kind), "msg": "%s(chart %r), batch %r, %d points, lambda pattern %r: the column-vector answer is not the row-vector answer "
+                          "with the last two axes swapped (charts %r / %r)\n%r\nvs\n%r" % (f, c, batch, m, pat, ca, cb, b_, a)})
+        outcomes.append(tuple(sorted(res)))
+    return {"v": v, "t": calls, "o": (f, n, kind, m if m <= n + 1 else "many", len(v) == 0), "nt": True}
+
 
 def run(ctx):
     q = ctx.quick
@@ -714,6 +839,18 @@ def run(ctx):
     ctx.product("integer-points", "checks.c12:case_intpoints", list(intpoint_cases()),
                 domains={"coordinates": INT_TIMELIKE, "packagings": INT_POINT_PACKS, "outputs": INT_OUTPUTS,
                          "oracle": "the same output from the float64 ndarray packaging (itself decided by C01, C13, C14, C15)"}, chunk=16)
+    cf = []
+    for c in coordfn_cases():
+        c["seed"] = ctx.seed
+        cf.append(c)
+    ctx.assume("module-level coordinate functions: points lie inside the requested chart (every coordinate >= 0.05 in modulus); hyperbolic.hyperboloid_coords "
+               "is given ndarrays only (its docstring says ndarray; it normalises its argument in place, which is not judged here); with chart_index=None "
+               "the chosen chart may depend on the scaling, the returned coordinates must be the ones of the returned chart")
+    ctx.product("coordinate-functions", "checks.c12:case_coordfn", cf,
+                domains={"functions": ["projective.affine_coords chart 0..n and None", "hyperbolic.kleinian_coords", "hyperbolic.hyperboloid_coords",
+                                       "projective.projective_coords chart 0..n"], "n": [2, 3], "batch shapes": CF_BATCHES, "points per matrix": CF_COUNTS,
+                         "layouts": ["rows", "columns (column_vectors=True)"], "packagings": CF_PACKS,
+                         "lambda patterns": "all ones + the 4 cyclic shifts of {1,-1,2.5,-0.3} over the points (one factor per point)"}, chunk=16)
     dims = (2, 3, 4) if q else (1, 2, 3, 4, 5)
     cases = []
     for c in rescale_cases(dims, ctx.seed, q):
